@@ -7,7 +7,7 @@ import subprocess
 from . import refparse as P
 from .common import NUMLIB, WORK, MachineryError, Stats, Violation, collect, finish, hx, pmap, shim, child_setup
 from .eng_debug import push
-from .eng_optdiff import G16, RunObs, big, bodies, labelflow_family, loop_program, prefix_compatible
+from .eng_optdiff import G16, RunObs, big, bodies, labelflow_family, loop_program, prefix_compatible, push_value
 
 B = 800
 BATCH = 150          # programs per crate (x3 levels = modules)
@@ -101,13 +101,9 @@ def fam_resume(maxres):
 def fam_chars():
     out = []
     cps = list(range(0, 128)) + [0xE9, 0x301, 0x1F600, 0x7FF, 0xFFFF, 0x10FFFF]
+    cps += [(1 << 32) + 65, (1 << 32) + 0xD800, 1 << 33, (1 << 64) + 66, 0xD800, 0xDFFF, 0x110000]
     for cp in cps:
-        if cp == 0:
-            p = '형'
-        else:
-            # factor cp = a * b with a <= 1200
-            a = max(x for x in range(1, 1201) if cp % x == 0)
-            p = big(a, cp // a) if a >= 2 else '형' + '.' * cp
+        p = push_value(cp)
         for sink in ('.', '..'):
             out.append('%s 항%s 흑 항... 흑... 항.' % (p, sink))
     return out
@@ -344,11 +340,11 @@ def run_c03(tier):
         fams['templates'] = fam_templates()
         fams['areas'] = fam_areas(1) + fam_areas(2)[::7] + fam_areas3()[::5]
         fams['dispatch'] = fam_dispatch()
-        fams['general'] = fam_general(2, ['', '항. 항.']) + fam_general(3, [''])[::7]
-        fams['resume'] = fam_resume(1) + fam_resume(2)[::10]
+        fams['general'] = fam_general(2, ['', '항. 항.']) + fam_general(3, [''])[::15]
+        fams['resume'] = fam_resume(1) + fam_resume(2)[::14]
         fams['chars'] = fam_chars()
         fams['labels'] = fam_labels() + fam_bigindex()
-        fams['labelflow'] = labelflow_family()[::4]
+        fams['labelflow'] = labelflow_family()[::8]
         standalone = fam_templates()[::12] + fam_chars()[::9] + [g + ' ' + t for _, g in GADGETS for _, t in TRIGGERS][::2]
     else:
         fams['templates'] = fam_templates()
